@@ -28,7 +28,9 @@ Tags of OTHER removable elements inside a removed element are generated where ev
 a stray end tag of a different removable element (``<noscript>a </iframe> b</noscript>``: ignored by
 the tree builder, text in the raw-text reading) inside noscript/iframe/object/applet, and an unclosed
 start tag of a different removable element inside iframe/noscript, whose content is raw text up to
-their own end tag.  A document may END inside an unterminated comment / declaration / processing
+their own end tag.  An ORPHAN end tag of a removable element (no such element open: the element was closed
+once too often, ``</script>`` duplicated) is ignored by every tree builder; it is generated between, before and
+after removed elements, preferably with the name of the element removed last.  A document may END inside an unterminated comment / declaration / processing
 instruction (a truncated mail body): HTML tokenisation makes everything up to the end of input the
 comment, so its tokens are class r and nothing visible follows.
 
@@ -65,6 +67,7 @@ RISKY = (
     "stray-removable-endtag-in-removed-element",
     "unclosed-removable-starttag-in-removed-element",
     "unterminated-trailing-construct",
+    "orphan-removable-endtag",
 )
 
 VOID_CHILDREN = (
@@ -93,11 +96,13 @@ NORMAL_KINDS = ("text", "balanced", "void-selfclosed", "nested-same", "nested-ot
 RISKY_KINDS = {"void-child-in-removed-element": "void-bare", "stray-endtag-in-removed-element": "stray-endtag",
                "unclosed-inner-tag-in-removed-element": "unclosed-inner",
                "stray-removable-endtag-in-removed-element": "stray-removable-endtag",
-               "unclosed-removable-starttag-in-removed-element": "unclosed-removable"}
-_RISKY_ONLY_KINDS = ("void-bare", "stray-endtag", "unclosed-inner", "embed-bare", "stray-removable-endtag", "unclosed-removable")
+               "unclosed-removable-starttag-in-removed-element": "unclosed-removable",
+               "orphan-removable-endtag": "orphan-endtag"}
+_RISKY_ONLY_KINDS = ("void-bare", "stray-endtag", "unclosed-inner", "embed-bare", "stray-removable-endtag", "unclosed-removable", "orphan-endtag")
+ORPHAN_NAMES = NORMAL + RAWTEXT      # an end tag of a removable element with no element open: between / after / before removed elements
 EMBED_KINDS = ("embed-selfclosed", "embed-paired")
 COMMENT_KINDS = ("plain", "tight", "multiline", "with-tags", "with-gt", "with-dashes", "with-removable", "conditional",
-                 "empty", "with-quotes", "pi", "decl", "doctype-like")
+                 "empty", "with-quotes", "pi", "decl", "doctype-like", "if-plain-close", "xml-island", "endif-lookalike")
 ATTR_KINDS = ("none", "plain", "gt-in-value", "quotes", "unquoted", "endtag-in-value", "newline-in-tag")
 CASE_KINDS = ("lower", "upper", "mixed")
 CLOSE_KINDS = ("plain", "ws", "nl")
@@ -153,6 +158,8 @@ def risky_names(feature: str) -> tuple:
         return UNCLOSED_REMOVABLE_PARENTS
     if feature == "unterminated-trailing-construct":
         return ()               # not a construct at a position: the document's tail (make_body)
+    if feature == "orphan-removable-endtag":
+        return ()               # needs removed elements around it: own stream in systematic_risky / random_risky
     return NORMAL
 
 
@@ -374,6 +381,12 @@ def _comment(b: _B, kind: str) -> list:
         return [f"<!ELEMENT {r()} ({r()})>"]
     if kind == "doctype-like":
         return [f"<!{r()} {r()}>"]
+    if kind == "if-plain-close":        # starts like a conditional comment, ends like a plain one
+        return [f"<!--[if gte mso 9]> {r()} <b>{r()}</b> -->"]
+    if kind == "xml-island":
+        return [f"<!--[if gte mso 9]><xml>\n <o:OfficeDocumentSettings><o:AllowPNG/><o:PixelsPerInch>{r()}</o:PixelsPerInch></o:OfficeDocumentSettings>\n</xml><![endif]-->"]
+    if kind == "endif-lookalike":
+        return [f"<!-- {r()} <![endif] {r()} [if mso]> {r()} -->"]
     raise ValueError(kind)
 
 
@@ -403,6 +416,9 @@ def construct(b: _B, spec: dict) -> list:
             return [Alt(open_ + ">", open_.rstrip("\n") + ("/>" if attr != "unquoted" else " />"))]
         raise ValueError(kind)
     b.f(f"close:{close}")
+    if kind == "orphan-endtag":                 # the element was closed once too often / its end tag is duplicated
+        end = _close(name, case, close)
+        return [Alt(end, f"<{_cased(name, case)}>{end}")]
     if kind == "selfclosed-removable":          # EPUB (XHTML) only: <script src="x"/> is an empty element
         a = _attrs(b, name, "plain")
         return [f"<{_cased(name, case)}{a}/>"]
@@ -558,6 +574,9 @@ def make_body(rng, specs: list[dict], *, wrapper: str | None = None, fillers: in
             if risky == "bare-void-embed":
                 assert s["name"] == "embed"
                 s["kind"] = "embed-bare"
+            elif risky == "orphan-removable-endtag":
+                assert s["name"] in ORPHAN_NAMES
+                s["kind"] = "orphan-endtag"
             else:
                 assert s["name"] in NORMAL
                 s["kind"] = RISKY_KINDS[risky]
@@ -566,7 +585,7 @@ def make_body(rng, specs: list[dict], *, wrapper: str | None = None, fillers: in
             assert s.get("kind") not in _RISKY_ONLY_KINDS
         if s["position"] != "head":
             for _ in range(rng.randint(0, fillers)):
-                body.append(_filler_fixed(b))
+                body += _filler_fixed(b)
                 body.append("\n")
         h, bd = slot(b, s["position"], s)
         head += h
@@ -574,7 +593,7 @@ def make_body(rng, specs: list[dict], *, wrapper: str | None = None, fillers: in
         body.append("\n")
         b.body.constructs.append(s)
     for _ in range(rng.randint(0, fillers)):
-        body.append(_filler_fixed(b))
+        body += _filler_fixed(b)
         body.append("\n")
     trunc = None
     if risky == "unterminated-trailing-construct":
@@ -602,8 +621,21 @@ def make_body(rng, specs: list[dict], *, wrapper: str | None = None, fillers: in
     return b.body
 
 
-def _filler_fixed(b: _B) -> str:
-    return _filler_k(b, b.rng.randrange(10))
+FILLER_FEATURES = ("v:downlevel-revealed-block", "v:downlevel-revealed-inline", "v:between-if-comments")
+REVEALED_PAIRS = (("<!--[if !mso]><!-->", "<!--<![endif]-->"), ("<!--[if !IE]><!-->", "<!--<![endif]-->"),
+                  ("<!--[if !mso]><!-- -->", "<!-- <![endif]-->"), ("<!--[if (gt IE 9)|!(IE)]><!-->", "<!--<![endif]-->"),
+                  ("<!--[if !vml]><!-->", "<!--<![endif]-->"), ("<!--[IF !MSO]><!-->", "<!--<![ENDIF]-->"))
+
+
+def _filler_fixed(b: _B) -> list:
+    f = _filler_k(b, b.rng.randrange(13))
+    return f if isinstance(f, list) else [f]
+
+
+def _hidden(b: _B, text: str) -> list:
+    """A comment among the visible filler markup: a removable construct of its own (deleted in the reference)."""
+    b.seen = True
+    return [BEGIN, text, END]
 
 
 def _filler_k(b: _B, k: int) -> str:
@@ -630,6 +662,29 @@ def _filler_k(b: _B, k: int) -> str:
     if k == 8:
         b.f("v:cdata-in-body")
         return f"<p>{v()}</p><![CDATA[ {b.u()} > {b.u()} ]]><p>{v()}</p>"
+    # comment forms AROUND and BETWEEN visible markup: each comment is complete in itself, what stands between two of
+    # them is ordinary visible markup (the "downlevel-revealed" conditional comment of HTML mail / Office exports)
+    if k == 10:
+        b.f("v:downlevel-revealed-block")
+        o, c = REVEALED_PAIRS[b.rng.randrange(len(REVEALED_PAIRS))]
+        mid = b.rng.choice((lambda: f'<p>{v()} <a href="http://example.org/r">{v()}</a></p>',
+                            lambda: f"<h2>{v()}</h2><p>{v()}</p>",
+                            lambda: f"<table><tr><td>{v()}</td><td>{v()}</td></tr></table>",
+                            lambda: f"<ul><li>{v()}</li></ul>\n<div>{v()}</div>"))
+        return [f"<p>{v()}</p>\n"] + _hidden(b, o) + ["\n" + mid() + "\n"] + _hidden(b, c) + [f"\n<p>{v()}</p>"]
+    if k == 11:
+        b.f("v:downlevel-revealed-inline")
+        o, c = REVEALED_PAIRS[b.rng.randrange(len(REVEALED_PAIRS))]
+        return [f"<p>{v()} "] + _hidden(b, o) + [f"{v()} <b>{v()}</b> "] + _hidden(b, c) + [f" {v()}</p>"]
+    if k == 12:
+        b.f("v:between-if-comments")
+        r = b.r
+        first = b.rng.choice((lambda: f"<!--[if gte mso 9]> {r()} -->", lambda: f"<!--[if mso]>{r()}-->",
+                              lambda: f"<!--[if lt IE 9]><p>{r()}</p>\n-->", lambda: f"<!--[if !mso]> {r()} <!-->"))()
+        seg = _hidden(b, first) + [f"\n<p>{v()}</p><h3>{v()}</h3>\n"]
+        last = b.rng.choice((lambda: f"<!--[if mso]><p>{r()}</p><![endif]-->", lambda: f"<!--[if gte mso 9]><xml><o:p>{r()}</o:p></xml><![endif]-->",
+                             lambda: f"<!-- {r()} <![endif]-->", lambda: "<!--<![endif]-->"))()
+        return seg + _hidden(b, last) + [f"\n<p>{v()}</p>"]
     raise ValueError(k)
 
 
@@ -675,6 +730,20 @@ def systematic_risky(rng):
             specs = [s for s in specs if s["position"] != "head"]
             yield make_body(rng, specs, risky="unterminated-trailing-construct", tail_spec={"kind": kind, "trunc": trunc},
                             fillers=None if specs else 2)
+    # orphan end tag: element X removed, later </X> (or another removable name) with nothing open, then more removed elements
+    content = [n for n in NAMES if n not in ("embed", "comment")]
+    for k, name in enumerate(ORPHAN_NAMES):
+        for i, pos in enumerate(NONTABLE_POSITIONS):
+            if pos == "head" or (i + k) % 2:
+                continue
+            before = {"name": name if i % 3 else ORPHAN_NAMES[(k + 1) % len(ORPHAN_NAMES)], "position": POSITIONS[(i * 5 + k) % len(POSITIONS)]}
+            after = [{"name": content[(i + k + j) % len(content)], "position": POSITIONS[(i * 3 + k + 7 * j + 1) % len(POSITIONS)]} for j in range(1 + i % 2)]
+            specs = [before, {"name": name, "position": pos, "risky": True}] + after
+            if any(s["position"] == "head" for s in specs):
+                for s in specs:
+                    if s["position"] == "head":
+                        s["position"] = "body-level"
+            yield make_body(rng, specs, risky="orphan-removable-endtag")
     for feature in RISKY:
         names = risky_names(feature)
         for k, name in enumerate(names):
@@ -707,6 +776,17 @@ def random_risky(rng, n: int):
             continue
         if feature == "unterminated-trailing-construct":
             yield make_body(rng, specs, risky=feature, fillers=None if specs else 2)
+            continue
+        if feature == "orphan-removable-endtag":
+            at = rng.randint(0, len(specs))
+            prev = [s["name"] for s in specs[:at] if s["name"] in ORPHAN_NAMES]
+            name = prev[-1] if prev and rng.random() < 0.6 else rng.choice(ORPHAN_NAMES)
+            specs.insert(at, {"name": name, "position": rng.choice(NONTABLE_POSITIONS), "risky": True})
+            if at == len(specs) - 1 or rng.random() < 0.5:
+                specs.append({"name": rng.choice(NAMES), "position": rng.choice(POSITIONS)})
+            if any(s["position"] == "head" for s in specs):
+                continue
+            yield make_body(rng, specs, risky=feature)
             continue
         rs = {"name": rng.choice(risky_names(feature)), "position": rng.choice(NONTABLE_POSITIONS), "risky": True}
         specs.insert(rng.randint(0, len(specs)), rs)
